@@ -223,7 +223,7 @@ def build_spec(h, qclass, perturb):
             ent += _gamma_entropy(qa[j], qb[j])
         if d == 1 and pair != "two" and perturb is None:
             args = f"(ofQ NumI {q(a[0])}) (ofQ NumI {q(b[0])})"
-            xl = C.coq_list([r[0] for r in xs], lambda v: f"ofQ NumI {q(v)}")
+            xl = _il([r[0] for r in xs])
             fn = ("ge_exp_lp", "ge_exp_lq") if via_exp else ("ge_lp", "ge_lq")
             s.coq = (lambda z: f"{fn[0]} NumI {args} (ofQ NumI {q(math.lgamma(a[0]))}) {xl} (ofQ NumI {q(z[0])})",
                      lambda z: f"{fn[1]} NumI {args} (ofQ NumI {q(math.lgamma(a[0] + n))}) {xl} (ofQ NumI {q(z[0])})",
@@ -247,8 +247,8 @@ def build_spec(h, qclass, perturb):
         ent += _gamma_entropy(qa, qb)
         if perturb is None:
             args = f"(ofQ NumI {q(a)}) (ofQ NumI {q(b)})"
-            kl = C.coq_list(ks, lambda v: f"ofQ NumI {q(v)}")
-            gl = C.coq_list(ks, lambda v: f"ofQ NumI {q(math.lgamma(v + 1))}")
+            kl = _il(ks)
+            gl = _il([math.lgamma(v + 1) for v in ks])
             s.coq = (lambda z: f"gp_lp NumI {args} (ofQ NumI {q(math.lgamma(a))}) {kl} {gl} (ofQ NumI {q(z[0])})",
                      lambda z: f"gp_lq NumI {args} (ofQ NumI {q(math.lgamma(a + sk))}) {kl} (ofQ NumI {q(z[0])})",
                      f"gp_logml NumI {args} (ofQ NumI {q(math.lgamma(a))}) (ofQ NumI {q(math.lgamma(a + sk))}) {kl} {gl}")
@@ -293,7 +293,7 @@ def build_spec(h, qclass, perturb):
         ent += _normal_entropy(qs)
         if pair != "two" and perturb is None:
             k = f"(ofQ NumI {q(HL2PI)})"
-            yl = C.coq_list(ys, lambda v: f"ofQ NumI {q(v)}")
+            yl = _il(ys)
             pr = f"(ofQ NumI {q(m0)}) (ofQ NumI {q(s0)}) (ofQ NumI {q(sg)})"
             post = f"(ofQ NumI {q(m1)}) (ofQ NumI {q(s1)})"
             lm = f"nn_logml NumI {k} {pr} {post} {yl}"
@@ -442,6 +442,10 @@ def gen_cases(rng, tier):
                 for shape in ([1], [2], [3], [1, 3], [3, 2]):
                     for qclass in ("joint", "bare"):
                         cases.append(mk(obj, par, shape, qclass, True, pair))
+        # every pair that has a Coq density gets its densities compared on a few draws
+        for pair in ("ge", "gp", "nn", "bb", "ge_exp", "bb_sig", "nn_aff", "lnn_exp"):
+            cases.append(dict(mk("ELBO", None, [3], "joint", True, pair), dens=True))
+            cases.append(dict(mk("VR", 0.5, [2], "joint", True, pair), dens=True))
     return cases
 
 
@@ -451,17 +455,17 @@ def shape_class(shape):
     return "[1,K]" if shape[0] == 1 else "[S,K]"
 
 
-def q_name(c):
-    pair, joint = c["hyper"]["pair"], c["qclass"] == "joint"
-    if pair == "mvn":
-        return "joint[MultivariateNormal]" if joint else "MultivariateNormal"
-    if pair == "ge_vec" and not joint:
-        return "bare-Distribution[2]"
-    return "joint" if joint else "bare-Distribution"
-
-
 def case_key(c):
-    return f"C14:{c['obj']}:{shape_class(c['shape'])}:q={q_name(c)}"
+    """Stable key of an input class: objective x sample-shape class x what q() returns.
+    q = joint: one log density per draw (JointDistributionModel, MultivariateNormal model);
+    q = bare-Distribution: a factorised torch distribution wrapped directly, q() returns one
+    value per component ([..., d], d = 1 or 2) -- one root cause, so S = 1 / S > 1 are merged."""
+    pair, joint, shape = c["hyper"]["pair"], c["qclass"] == "joint", c["shape"]
+    if not joint and pair != "mvn":
+        return f"C14:{c['obj']}:{'[S]' if len(shape) == 1 else '[S,K]'}:q=bare-Distribution"
+    if pair == "mvn" and joint and c["obj"] == "ELBO-entropy" and len(shape) == 1:
+        return "C14:ELBO-entropy:[S]:q=joint[MultivariateNormal]"
+    return f"C14:{c['obj']}:{shape_class(shape)}:q=joint"
 
 
 # ----------------------------------------------------------------------------- implementation
@@ -619,8 +623,13 @@ def expected_value(c, spec, an):
 
 # ----------------------------------------------------------------------------- Coq expressions
 
+def _cl(items, elem=str):
+    """cons-list syntax: in bigZ_scope the singleton `[x]` is the notation for BigZ.to_Z x."""
+    return "(" + " :: ".join([elem(i) for i in items] + ["nil"]) + ")"
+
+
 def _il(xs):
-    return C.coq_list(xs, lambda v: f"ofQ NumI {C.qlit(v)}")
+    return _cl(xs, lambda v: f"ofQ NumI {C.qlit(v)}")
 
 
 def coq_objective(c, an):
@@ -638,8 +647,8 @@ def coq_objective(c, an):
         else:
             e = f"klpq NumI {lp} {lq}"
     else:
-        lp = C.coq_list(an["lp"], _il)
-        lq = C.coq_list(an["lq"], _il)
+        lp = _cl(an["lp"], _il)
+        lq = _cl(an["lq"], _il)
         if obj in ("ELBO", "ELBO-entropy"):
             e = f"elbo_multi NumI {lp} {lq}"
         elif obj == "VR":
@@ -767,7 +776,7 @@ def run(tier, seed, replay=None):
     # ------------------------------------------------------------------ correspondence (Coq NumI)
     t0 = time.time()
     exprs, index = [], []
-    dens_budget = 60 if tier == "quick" else 400
+    dens_budget = 20 if tier == "quick" else 400
     for ci, (c, (spec, reqs, berr)) in enumerate(zip(cases, runs)):
         if berr or analysed[ci] is None:
             continue
@@ -781,13 +790,13 @@ def run(tier, seed, replay=None):
             continue
         exprs.append(coq_objective(c, an))
         index.append((ci, "objective", None))
-        if spec.coq and dens_budget > 0 and len(c["shape"]) == 1 and c["shape"][0] <= 3 and c["qclass"] == "joint" \
+        if spec.coq and (c.get("dens") or dens_budget > 0) and len(c["shape"]) == 1 and c["shape"][0] <= 3 and c["qclass"] == "joint" \
                 and an["lq"] is not None:
             dens_budget -= 1
             lat = an["lat"]
-            exprs.append("concat (map show_i [" + "; ".join(spec.coq[0](z) for z in lat) + "])")
+            exprs.append("concat (map show_i " + _cl([spec.coq[0](z) for z in lat]) + ")")
             index.append((ci, "lp", None))
-            exprs.append("concat (map show_i [" + "; ".join(spec.coq[1](z) for z in lat) + "])")
+            exprs.append("concat (map show_i " + _cl([spec.coq[1](z) for z in lat]) + ")")
             index.append((ci, "lq", None))
             exprs.append(f"show_i ({spec.coq[2]})")
             index.append((ci, "logml", None))
